@@ -227,6 +227,86 @@ pub fn gen(seed: u64, tier: &str) -> Vec<String> {
         }
     }
     emit_blocks(&mut g, &mut rng, &sel, true, false);
+    // C2. sentinel-aware ETC1A4 / ETC1 blocks: alpha word x colour word over the special values an early
+    //     exit or fast path would test (0, all ones, one nibble / one bit set, previous block, random);
+    //     the colour words include legal non-black ones so that the Khronos oracle has something to say
+    {
+        let mut alpha_vals: Vec<u64> = vec![0, u64::MAX, 0xFEDC_BA98_7654_3210, rng.next()];
+        for k in 0..16 {
+            alpha_vals.push(0xFu64 << (4 * k));
+            alpha_vals.push(0x1u64 << (4 * k));
+        }
+        for _ in 0..4 {
+            alpha_vals.push(1u64 << rng.below(64));
+            alpha_vals.push(!(0xFu64 << (4 * rng.below(16))));
+        }
+        let mut colour_vals: Vec<u64> = vec![
+            0,
+            u64::MAX,
+            1u64 << 33,
+            etc_word(false, false, 2, 5, [9, 3, 12], [1, 14, 7], 0x5A5A, 0x33CC),
+            etc_word(true, true, 7, 0, [20, 11, 3], [7, 1, 0], 0xF00F, 0x0FF0),
+            etc_word(false, true, 0, 0, [15, 15, 15], [15, 15, 15], 0, 0),
+            etc_word(true, false, 4, 4, [0, 0, 0], [0, 0, 0], 0xFFFF, 0xFFFF),
+        ];
+        for _ in 0..3 {
+            colour_vals.push(rng.next() & !(1u64 << 33));
+            colour_vals.push(1u64 << rng.below(64));
+        }
+        let mut blocks: Vec<(u64, u64)> = Vec::new();
+        for &a in &alpha_vals {
+            for &c in &colour_vals {
+                blocks.push((a, c));
+            }
+        }
+        // adjacent identical blocks and zero blocks next to non-zero ones
+        let n = blocks.len();
+        for i in 0..n / 8 {
+            let b = blocks[(i * 7) % n];
+            blocks.push(b);
+            blocks.push(b);
+            blocks.push((0, 0));
+        }
+        rng.shuffle(&mut blocks);
+        while blocks.len() % 64 != 0 {
+            blocks.push((0, rng.next() & !(1u64 << 33)));
+        }
+        for (i, chunk) in blocks.chunks(64).enumerate() {
+            let words: Vec<u64> = chunk.iter().map(|b| b.1).collect();
+            let alphas: Vec<u64> = chunk.iter().map(|b| b.0).collect();
+            let with_alpha = blocks_payload(&words, Some(&alphas));
+            if i % 2 == 0 {
+                g.push(format!("px 13 32 32 {}", hex(&with_alpha)));
+            } else {
+                g.push(format!("etc 1 32 32 {}", hex(&with_alpha)));
+            }
+            // the same colour words without alpha, through the other entry point
+            let without = blocks_payload(&words, None);
+            if i % 2 == 0 {
+                g.push(format!("etc 0 32 32 {}", hex(&without)));
+            } else {
+                g.push(format!("px 12 32 32 {}", hex(&without)));
+            }
+        }
+    }
+    // C3. sentinel-aware payloads for every format: all zero, all ones, word-, tile- and byte-wise
+    //     mixtures of 0 / 0xFF / single bits / repeats / random (16x16 = four tiles; 32x8; 8x32)
+    for fmt in 0u32..=13 {
+        for style in 0..6u64 {
+            for (w, h) in [(16u32, 16u32), (32, 8), (8, 32)] {
+                if style < 2 && w != 16 {
+                    continue;
+                }
+                let len = need(fmt, w, h);
+                let p = texc::sentinel_payload(&mut rng, fmt, len, style);
+                g.push(format!("px {} {} {} {}", fmt, w, h, hex(&p)));
+                if fmt >= 12 && style >= 2 {
+                    let p = texc::sentinel_payload(&mut rng, fmt, len, style);
+                    g.push(format!("etc {} {} {} {}", (fmt == 13) as u8, w, h, hex(&p)));
+                }
+            }
+        }
+    }
     // D. fully random blocks; all sizes 8…128 (the f64 tile count), rectangular included
     for &w in &all_sizes {
         for &h in &all_sizes {
@@ -264,6 +344,10 @@ pub fn gen(seed: u64, tier: &str) -> Vec<String> {
             g.push(format!("cf RGB5A3 {}", hex(&p)));
         }
         g.push(format!("cf RGBA8 {}", hex(&rng.bytes(64))));
+        // sentinel values and runs: 0x0000 / 0xFFFF / 0x8000 / 0x7FFF, repeats, single bits
+        for style in 0..6u64 {
+            g.push(format!("cf RGB5A3 {}", hex(&texc::sentinel_payload(&mut rng, 2, 256, style))));
+        }
         g.push("cf RGBA8 -".to_string());
         g.push("cf RGB5A3 -".to_string());
         g.push(format!("cf RGBA8 {}", hex(&rng.bytes(7))));
@@ -298,6 +382,17 @@ pub fn gen(seed: u64, tier: &str) -> Vec<String> {
         let ah = (h as usize + 3) / 4 * 4;
         let image: Vec<u8> = (0..aw * ah).map(|_| rng.below(entries as u64) as u8).collect();
         g.push(format!("ci8 {} {} {} {}", w, h, hex(&rng.bytes(entries * 2)), hex(&image)));
+    }
+    // sentinel palettes / index planes: all-zero and all-ones palettes, constant index planes,
+    // index 0 / 255 with a full palette
+    for (w, h) in [(8u32, 4u32), (16, 8), (13, 7)] {
+        let aw = (w as usize + 7) / 8 * 8;
+        let ah = (h as usize + 3) / 4 * 4;
+        for style in 0..6u64 {
+            let pal = texc::sentinel_payload(&mut rng, 2, 512, style);
+            let image = texc::sentinel_payload(&mut rng, 7, aw * ah, style + 1);
+            g.push(format!("ci8 {} {} {} {}", w, h, hex(&pal), hex(&image)));
+        }
     }
     // out-of-range palette index (visible / only in the padding), direct decode_indexed
     {
